@@ -32,7 +32,7 @@ ORG = [s for s in R.ORGANICS if "P" not in s and "[N@]" not in s and "[S@" not i
 
 def items(tier, seed):
     out = [{"part": "organic", "idx": i, "tier": tier, "seed": seed} for i in range(len(ORG))]
-    for cls, n in (("SP", 4), ("TB", 5), ("OH", 6)):
+    for cls, n in (("SP", 4), ("TB", 5), ("OH", 6), ("OHt", 6)):
         perms = list(itertools.permutations(range(n)))
         step = 24 if n <= 5 else 40
         for lo in range(0, len(perms), step):
@@ -195,7 +195,26 @@ def _organic(item, out):
 
 TEMPL = {"SP": ("Pt", G.SQ, G.METAL_LEN, ["F", "Cl", "Br", "I"], "SquarePlanar"),
          "TB": ("P", G.TBP, {k: v + 0.25 for k, v in G.BOND_LEN.items()}, ["H", "F", "Cl", "Br", "I"], "TrigonalBipyramidal"),
-         "OH": ("W", G.OCT, G.METAL_LEN, ["H", "F", "Cl", "Br", "I", "O"], "Octahedral")}
+         "OH": ("W", G.OCT, G.METAL_LEN, ["H", "F", "Cl", "Br", "I", "O"], "Octahedral"),
+         # heavy ligands at long bonds, every axis bent by 5 degrees (a realistic distortion; out-of-plane distances stay far
+         # from the 1 A planarity threshold, out-of-plane VOLUMES do not scale the same way)
+         "OHt": ("Pt", None, {"F": 2.0, "Cl": 2.35, "Br": 2.5, "I": 2.7, "S": 2.35, "Se": 2.45}, ["F", "Cl", "Br", "I", "S", "Se"],
+                 "Octahedral")}
+
+
+def _tilted_oct():
+    t = np.deg2rad(5.0)
+    c, s_ = np.cos(t), np.sin(t)
+    # both ligands of an axis lean the same way (trans angles of 170 degrees); vertex order as in G.OCT: +z -z +x +y -x -y
+    e = np.eye(3)
+    v = {}
+    for axis, towards in ((2, 0), (0, 1), (1, 2)):
+        for sign in (1.0, -1.0):
+            v[(axis, sign)] = sign * c * e[axis] + s_ * e[towards]
+    return np.array([v[(2, 1.0)], v[(2, -1.0)], v[(0, 1.0)], v[(1, 1.0)], v[(0, -1.0)], v[(1, -1.0)]], dtype=float)
+
+
+TEMPL["OHt"] = (TEMPL["OHt"][0], _tilted_oct(), *TEMPL["OHt"][2:])
 
 
 def _elongated(item, out, mol, els, xyz, c, place, conv, dname):
@@ -278,6 +297,8 @@ def _complex(item, out):
     conv = RDMol2StereoMolGraph(stereo_complete=True, lone_pair_stereo=True, use_atom_map_number=False, resonance=False)
     perms = list(itertools.permutations(range(n)))[item["lo"]:item["hi"]]
     bond_orders = [list(range(n)), list(reversed(range(n))), list(range(1, n)) + [0]]
+    if cls == "OHt":
+        bond_orders = bond_orders[:1]
     for place in perms:
         # ligand k sits on vertex place[k]
         for sigma in (0.0, 0.03):
@@ -322,6 +343,8 @@ def _complex(item, out):
                     if str(tag) not in ("CHI_SQUAREPLANAR", "CHI_TRIGONALBIPYRAMIDAL", "CHI_OCTAHEDRAL"):
                         oc["rdkit-no-label"] = oc.get("rdkit-no-label", 0) + 1
                         continue
+                    if cls == "OHt" and centre_last:
+                        continue
                     if cls == "OH" and sigma == 0.0 and not centre_last and bo is bond_orders[0]:
                         _elongated(item, out, mol, els, xyz, c, place, conv, dname)
                     out["evals"] += 1
@@ -342,6 +365,26 @@ def _complex(item, out):
                         continue
                     good = (d_ann is not None and d_geo is not None and d_ann[0] == dname and d_geo[0] == dname
                             and d_ann[2] is not None and d_geo[2] is not None and RS.same(d_ann, d_geo))
+                    if good and sigma == 0.0 and bo is bond_orders[0]:
+                        # the same label imported by atom-map number (scattered numbers): the descriptor must sit on the mapped
+                        # centre and name the mapped ligands
+                        mm = Chem.Mol(mol)
+                        mp = {}
+                        for at in mm.GetAtoms():
+                            mp[at.GetIdx()] = ((at.GetIdx() * 11 + 3) % (n + 1)) * 7 + 11    # (11 is coprime to 5, 6, 7: a permutation)
+                            at.SetAtomMapNum(mp[at.GetIdx()])
+                        out["evals"] += 1
+                        try:
+                            gm_ = RDMol2StereoMolGraph(stereo_complete=True, lone_pair_stereo=True, use_atom_map_number=True, resonance=False)(mm)
+                            dm = U.from_real(gm_).astereo.get(mp[c])
+                            exp_d = (d_geo[0], tuple(None if a is None else mp[a] for a in d_geo[1]), d_geo[2])
+                            if dm is None or dm[0] != dname or dm[2] is None or not RS.same(dm, exp_d):
+                                out["viol"].append({"sig": f"C14/complex/{cls}/by-map-number", "input": inp,
+                                                    "what": f"{cls} centre imported by atom-map number: descriptor on atom {mp[c]} is {dm}, the "
+                                                            f"coordinates (renamed) give {exp_d}", "item": item, "detail": None})
+                        except Exception as e:
+                            out["viol"].append({"sig": f"C14/complex/{cls}/by-map-number-raised:" + type(e).__name__, "input": inp,
+                                                "what": f"import by atom-map number raised {e!r}", "item": item, "detail": None})
                     if not good:
                         lab = mol.GetAtomWithIdx(c).GetPropsAsDict().get("_chiralPermutation")
                         out["viol"].append({"sig": f"C14/complex/{cls}/descriptor-differs", "input": inp,
